@@ -186,7 +186,7 @@ func c14Lookups(run *PropRun, db *TermDB) {
 		nl = append(nl, n)
 	}
 	sort.Strings(nl)
-	if run.Tier != "thorough" && len(nl) > 70 {
+	if false && run.Tier != "thorough" && len(nl) > 70 { // every name in both tiers (a lookup costs milliseconds; names with capitals such as the alias X-hpterm must not fall through a sample)
 		// quick tier: all unregistered names plus a deterministic sample of registered ones
 		var keep []string
 		for i, n := range nl {
@@ -300,10 +300,14 @@ func c14Lookups(run *PropRun, db *TermDB) {
 				if hasRGB {
 					cs = append(cs, same("SetFgRGB"), same("SetBgRGB"))
 				} else {
-					cs = append(cs, Ite(on, And(strIs("SetFgRGB", stdFgRGB), strIs("SetBgRGB", stdBgRGB)), And(same("SetFgRGB"), same("SetBgRGB"))))
+					cs = append(cs, Ite(on, And(strIs("SetFgRGB", stdFgRGB), strIs("SetBgRGB", stdBgRGB), strIs("SetFgBgRGB", "\x1b[38;2;%p1%d;%p2%d;%p3%d;48;2;%p4%d;%p5%d;%p6%dm")), And(same("SetFgRGB"), same("SetBgRGB"), same("SetFgBgRGB"))))
 				}
 				if synth256 {
 					cs = append(cs, BoolT(termInt2(get(rv, "Colors")) == 256), strIs("SetFg", std256Fg), strIs("SetBg", std256Bg))
+					if x := db.ByName["xterm-256color"]; x != nil {
+						// the combined form is the registered xterm-256color's (foreground from parameter 1, background from parameter 2)
+						cs = append(cs, strIs("SetFgBg", db.str(x, "SetFgBg")))
+					}
 				} else {
 					cs = append(cs, same("Colors"), same("SetFg"), same("SetBg"))
 				}
